@@ -496,7 +496,7 @@ class Gen:
             f = {'name': self.uid('f'), 'type': t}
             if t[0] == 'scalar' and r.random() < 0.12 and not any(x.get('key') for x in st.fields):
                 f['key'] = True; self.s.features.add('struct_key')
-            elif r.random() < 0.05:
+            elif r.random() < 0.15:
                 f['deprecated'] = True; self.s.features.add('struct_deprecated')
             st.fields.append(f)
         if not st.fields: st.fields.append({'name': self.uid('f'), 'type': ('scalar', 'int')})
